@@ -483,6 +483,26 @@ impl<'tcx> Cx<'tcx> {
             let _ = write!(o, ",\"closure_of\":{}", js(&self.def_path(parent)));
         }
         let _ = write!(o, ",\"derived\":{}", derived);
+        // names of all generic parameters in argument order (parents first): lets the rule engine substitute the
+        // concrete arguments of a call site when it inlines a generic helper
+        if kind != DefKind::Closure {
+            let mut gen_names: Vec<String> = Vec::new();
+            let mut chain: Vec<&ty::Generics> = Vec::new();
+            let mut g = tcx.generics_of(def_id);
+            loop {
+                chain.push(g);
+                match g.parent {
+                    Some(p) => g = tcx.generics_of(p),
+                    None => break,
+                }
+            }
+            for g in chain.iter().rev() {
+                for p in &g.own_params {
+                    gen_names.push(js(&p.name.to_string()));
+                }
+            }
+            let _ = write!(o, ",\"generics\":{}", jlist(&gen_names));
+        }
         let fn_name = tcx.opt_item_name(def_id).map(|s| s.to_string());
         if let Some(n) = fn_name {
             let _ = write!(o, ",\"name\":{}", js(&n));
